@@ -69,6 +69,11 @@ def run_selftest():
         if b is None:
             continue
         record("hash in hash-collection order", name, bad, bool(c16.unordered_feeds(prog, b)))
+    for name, bad in [("BadCaseKey", True), ("GoodCaseKey", False)]:
+        e, hh = body("fx_rules::<%s as PartialEq>::eq" % name), body("fx_rules::<%s as Hash>::hash" % name)
+        if e is None or hh is None:
+            continue
+        record("equality normalises, hash does not", name, bad, bool(c16.normalisers(prog, cg, e) - c16.normalisers(prog, cg, hh)))
     # tables
     ev = tables.Evaluator(prog)
     f, g, gb = body("fx_rules::good_code_from"), body("fx_rules::good_code_to"), body("fx_rules::bad_code_to")
